@@ -55,9 +55,38 @@ def pre(tier, seed):
     handing_out = [{"function": fns[i][0], "results_may_be_derived_from_parameters": rf.get(i, []),
                     "means": "the text a Copy/CopyTo stores into the destination may be the SOURCE's memory, not the buffer's"}
                    for i in sorted(fns) if fns[i][0] in prims and 1 in rf.get(i, [])]
+    # ... and for the read operations: which of them may write through the inspector or the value it reads, and which Loop
+    # leaves in the caller's key buffer (parameter 3) something that is not memory of that buffer
+    sf = {}
+    m = re.search(r"fp_store_from : list \(N \* list \(N \* list N\)\) := \[(.*?)\n\]\.", new, re.S)
+    for line in (m.group(1) if m else "").split("\n"):
+        e = re.match(r"\s*\((\d+), \[(.*)\]\);?$", line)
+        if e:
+            sf[int(e.group(1))] = [(int(t), [int(x) for x in fr.split(";") if x.strip()]) for t, fr in re.findall(r"\((\d+), \[([^\]]*)\]\)", e.group(2))]
+    reads = ("Get", "GetTo", "Compare", "Loop", "Length", "Capacity", "Copy", "TypeName")
+    deqs = ("DeepEqual", "DeepEqualWithOptions")
+    pname = {"Loop": ["inspector", "src", "iterator", "key buffer", "path"], "GetTo": ["inspector", "src", "result buffer", "path"],
+             "Compare": ["inspector", "src", "op", "right", "result", "path"]}
+    writing_reads, foreign_keys = [], []
+    for i in sorted(fns):
+        name = fns[i][0]
+        meth = name.rsplit(").", 1)[-1] if "Inspector)." in name else None
+        for t, fr in sf.get(i, []):
+            if (meth in reads and t in (0, 1)) or (meth in deqs and t in (0, 1, 2, 3)):
+                writing_reads.append({"function": name, "may_write_through_parameter": t, "values_stored_derived_from_parameters": fr,
+                                      "means": "a read operation may write the shared value it reads (or the inspector): two goroutines reading one value race"})
+            if meth == "Loop" and t == 3 and [q for q in fr if q != 3]:
+                foreign_keys.append({"function": name, "parameters": pname["Loop"], "stored_through": 3, "derived_from": fr,
+                                     "means": "after Loop the caller's key buffer may be memory of the value looped over (or of another argument), "
+                                              "not its own: the next operation that writes into the buffer writes into that memory"})
+            if meth in ("Compare", "Length", "Capacity") and t == {"Compare": 4}.get(meth, 2) and fr:
+                foreign_keys.append({"function": name, "stored_through": t, "derived_from": fr, "means": "a scalar result carries memory of an argument"})
     return {"file": "coq/Gen/FootprintFacts.v", "functions": len(fns), "roots": len(roots), "reachable": len(seen),
             "changed_since_commit": changed, "reachable_functions_storing_to_globals": offenders,
-            "copy_primitives_handing_out_their_source": handing_out}
+            "copy_primitives_handing_out_their_source": handing_out,
+            "functions_writing_through_a_parameter": len(sf),
+            "read_operations_writing_what_they_read": writing_reads,
+            "scratch_parameters_left_with_foreign_memory": foreign_keys}
 
 
 def post(tier, seed, cov, result):
@@ -76,7 +105,7 @@ def post(tier, seed, cov, result):
     else:
         rounds = 6 if tier == "quick" else 60
         for i in range(rounds):
-            g, n = (8, 480) if i % 2 == 0 else (32, 144)
+            g, n = (8, 552) if i % 2 == 0 else (32, 166)
             p = subprocess.run([os.path.join(ROOT, "build", "racerun"), str(seed * 100 + i), str(g), str(n)],
                                stdout=subprocess.PIPE, stderr=subprocess.PIPE, env=dict(env, GORACE="halt_on_error=1 exitcode=66"))
             o = p.stdout.decode().strip()
@@ -84,7 +113,8 @@ def post(tier, seed, cov, result):
             if p.returncode != 0:
                 race = p.returncode == 66 or b"DATA RACE" in p.stderr
                 problem = ("data race reported by the race detector" if race else
-                           "a call returned something else than when run alone, or a private value did not hold what its goroutine stored") + \
+                           "a call returned something else than when run alone, a private value did not hold what its goroutine stored, "
+                           "or a shared value is not what it was before the goroutines started (read operations changed it)") + \
                           ": seed %d goroutines %d ops %d: %s %s" % (seed * 100 + i, g, n, o[:600], p.stderr.decode()[:1500])
                 if race:
                     # the same schedule seed once more without halting at the first report: which results / stored texts it costs
@@ -101,7 +131,11 @@ def post(tier, seed, cov, result):
         result["lines"] = [l for l in result["lines"] if not l.endswith("no-failing-input-found")]
         path = os.path.join("replays", "C20-race.json")
         os.makedirs(os.path.join(ROOT, "replays"), exist_ok=True)
-        json.dump({"property": "C20", "problem": problem, "how": "build/racerun <seed> <goroutines> <ops>  (built with go build -race ./cmd/racerun)"},
+        static = {k: v for k, v in (cov.get("regenerated") or {}).items()
+                  if k in ("reachable_functions_storing_to_globals", "copy_primitives_handing_out_their_source",
+                           "read_operations_writing_what_they_read", "scratch_parameters_left_with_foreign_memory") and v}
+        json.dump({"property": "C20", "problem": problem, "how": "build/racerun <seed> <goroutines> <ops>  (built with go build -race ./cmd/racerun)",
+                   "what_the_extracted_facts_say": static},
                   open(os.path.join(ROOT, path), "w"), indent=1)
         result["lines"].insert(0, "VIOLATION property=C20 replay=%s" % path)
         result["violation"] = True
@@ -109,7 +143,8 @@ def post(tier, seed, cov, result):
 
 CHECK = Check(
     "C20", streams=[], pre=pre, post=post,
-    rule=("(a) call graph, stores to package-level variables and 'a result may be derived from parameter p' facts re-extracted from "
+    rule=("(a) call graph, stores to package-level variables, 'a result may be derived from parameter p' and 'the function may write "
+          "through parameter t what is derived from parameters from' facts re-extracted from "
           "/repo's current source (go/ssa, CHA) and the theorem file re-checked against them; (b) exploration: 8 or 32 goroutines issue seeded random read operations on shared values "
           "through shared generated and built-in inspectors and write operations on private values with private buffers, built with "
           "-race; private values are both built in place and DERIVED from shared templates (Copy, CopyTo with an own buffer, CopyTo into "
@@ -117,6 +152,13 @@ CHECK = Check(
           "maps, filled values) and then written with Set / SetWithBuffer of int, uint, float, bool, string, bytes values, appends through "
           "Get references, Reset; every call's result is compared with the same goroutine running alone, and every private value must "
           "hold what its goroutine stored there (checked after each write and once more after all writers have finished). "
+          "Third population: read operations with the goroutine's REUSED scratch state - one key buffer and one iterator for all its "
+          "Loop calls (key asked for or not, read at once or kept until Iterate, break / continue), one result buffer for all GetTo, "
+          "one bool for all Compare, one int for Length / Capacity, one never-emptied ByteBuffer for the writes to its own value, "
+          "the key buffer also used for texts of its own - mixing loops over string-, named-string-, *string-keyed maps, int-, float-, "
+          "pointer-keyed maps, slices of every declared form and the built-in containers of the SAME shared values (map keys on the "
+          "heap, as decoded data). Every shared value of the run is compared, after the concurrent run and after the runs alone, with "
+          "its rendering taken before the goroutines started, and every key its maps hand out must be found when looked up. "
           "distinct = distinct (seed, goroutines) run."),
     assumptions=["the Go standard library, encoding/json and the runtime are outside the extracted graph (trusted)",
                  "CHA over-approximates interface and function-value calls; reflection-based calls do not occur in the module",
@@ -131,7 +173,10 @@ MANIFEST = {
     "text": ("Partial. Proved in Rocq over facts regenerated from /repo on every run: no function reachable from a run-time API root "
              "stores to a package-level variable (closed-set argument, C20_runtime_no_global_write), and the interleaving theorem: a "
              "goroutine whose footprint nobody else writes computes, under every interleaving with any number of others, what it "
-             "computes alone (C20_interleaving, induction over the merged sequence). Explored, not proved: race-detector runs of "
+             "computes alone (C20_interleaving, induction over the merged sequence); over the extracted 'may write through parameter t' "
+             "facts the read operations write through no parameter but their result / scratch parameters - never through the value read - "
+             "and what Loop leaves in the caller's key buffer is memory of that buffer, never of the value looped over "
+             "(C20_reads_never_write_what_they_read, C20_deep_equal_writes_nothing, C20_loop_keys_live_in_the_key_buffer). Explored, not proved: race-detector runs of "
              "concurrent readers on shared values and writers on private values, results compared with sequential execution."),
     "note": ("The model cannot exhibit data races below call granularity (scheduler, memory model); that the generated methods' "
              "footprints are what the theorem assumes (reads: the value; writes: destination and buffer) rests on C12/C03/C06/C08 and on "
